@@ -354,10 +354,19 @@ theorem C08_host_accepts_only_own_address (nd : Node) (ifc : Iface) (f : Frame) 
 (`check_send_frame_to_session_manager`); everything else goes to `process_frame`. -/
 theorem C08_router_software_only_own_address (fuel : Nat) (st : St) (n i : Nat) (f : Frame) (nd : Node) (ifc : Iface)
     (hn : st.node? n = some nd) (hi : st.iface? n i = some ifc) (hon : nd.on = true)
+    (hacl : ((f.pl == .dataReq || f.pl == .dataRep) && !nd.flag) = false)
     (hnot : ifaceWithIp nd.ifaces f.dstIp = none) :
     routerRecv (fuel + 1) st n i f =
       routerProcess fuel (st.modNode n (fun nd => nd.addArp f.srcIp f.srcMac i)) n i f := by
-  simp only [routerRecv, hn, hi, hon, Bool.not_true, Bool.false_eq_true, if_false, hnot]
+  simp only [routerRecv, hn, hi, hon, Bool.not_true, Bool.false_eq_true, if_false, hnot, hacl]
+
+/-- a router whose ACL does not permit the service drops its frames before anything else happens (no ARP learning, no
+forwarding): "exchanges that every device on the path permits" is a real precondition. -/
+theorem C08_router_acl_denies_first (fuel : Nat) (st : St) (n i : Nat) (f : Frame) (nd : Node) (ifc : Iface)
+    (hn : st.node? n = some nd) (hi : st.iface? n i = some ifc)
+    (hpl : f.pl = .dataReq ∨ f.pl = .dataRep) (hflag : nd.flag = false) :
+    routerRecv (fuel + 1) st n i f = (st, f) := by
+  rcases hpl with h | h <;> simp [routerRecv, hn, hi, h, hflag]
 
 /-! ### non-vacuity: a concrete network (host A — host B on one link; A also has a default gateway) -/
 
